@@ -617,6 +617,15 @@ pub fn realistic_values() -> Vec<Vec<u8>> {
         b"\x01vpce-08d2bf15fac5001c9".to_vec(), vec![1, 0x78, 0x56, 0x34, 0x12],
         b"\r\n".to_vec(), b"PROXY".to_vec(), b"%00%2f".to_vec(), b"${jndi:x}".to_vec(), b"<script>".to_vec(),
     ];
+    // the textual ones again with what normalising code strips or folds: a trailing / leading dot,
+    // white space, NUL, a slash, a line end, upper case
+    let texts: Vec<Vec<u8>> = v.iter().filter(|x| x.len() >= 2 && x.iter().all(|b| (0x20..0x7f).contains(b))).cloned().collect();
+    for t in texts {
+        let s = String::from_utf8_lossy(&t).to_string();
+        for d in [format!("{}.", s), format!(".{}", s), format!("{} ", s), format!(" {}", s), format!("{}\0", s), format!("{}/", s), format!("{}\r\n", s), s.to_uppercase()] {
+            v.push(d.into_bytes());
+        }
+    }
     v.push((0..16u8).collect());
     v.push(vec![0x55; 128]);
     v.push(vec![0x55; 129]);
@@ -1341,6 +1350,26 @@ pub fn generate_builder(name: &str, count: usize, rng: &mut Rng, out: &mut dyn W
                     n += run_ops(&sid, &tag, &ops, out);
                 }
                 maybe_parse_back(&sid, &tag, &ops, out, &mut n);
+            }
+        }
+        // C07: every registered type x every realistic value (see realistic_values), through write_tlv
+        // and the two write_payload forms, parsed back
+        "breal" => {
+            let values = realistic_values();
+            let total = TYPES.len() * values.len();
+            let take = count.min(total);
+            let step = total as f64 / take as f64;
+            let off = (rng.below(97) as f64) / 97.0 * step;
+            for i in 0..take {
+                let idx = ((off + i as f64 * step) as usize).min(total - 1);
+                let (t, v) = (TYPES[idx % TYPES.len()].0, values[idx / TYPES.len()].clone());
+                let ctor = Op::With { vc: 0x21, tr: tr_from("Stream"), addr: random_addr(rng, 1 + (i % 3) as u64), bitor: 0 };
+                let kind = if i % 2 == 0 { Kind::Named(t) } else { Kind::Raw(u8::from(t)) };
+                let w = match i % 3 { 0 | 1 => Op::WriteTlv(kind, v), _ => Op::Write(Payload::Tlv(kind, v)) };
+                let ops = vec![ctor, w, Op::Build];
+                let tag = json!({"g": "bwire"});
+                n += run_ops(&format!("breal-{}", i), &tag, &ops, out);
+                maybe_parse_back(&format!("breal-{}", i), &tag, &ops, out, &mut n);
             }
         }
         // C13: parse a header, then rebuild it from the observed parts
